@@ -157,6 +157,8 @@ def main(tier, seed, replay=None):
         rep.violation(p, "the verification harness does not build against the current tree", no_input=True)
         return rep.finish()
     lean_part(rep, "C20")
+    from . import facts
+    fact_msgs = facts.facts_for(rep, "C20")
     common = extract_list(os.path.join(env.REPO, "commonpasswords.go"), "commonPasswordsCompressed")
     dictionary = extract_list(os.path.join(env.REPO, "dictionary.go"), "dictionaryCompressed")
     if common is None or dictionary is None:
@@ -253,4 +255,5 @@ def main(tier, seed, replay=None):
         p = write_replay("C20", 10, ["the Lean model and the implementation disagree (%d queries): %s" % (len(mism), what)],
                          " ".join([hexs(pw)] + [hexs(x) for x in names]) + "\n")
         rep.violation(p, "model/implementation disagreement on %d queries, e.g. password %r: %s" % (len(mism), pw[:40], what), no_input=True)
+    facts.report_fact_failures(rep, "C20", fact_msgs)
     return rep.finish()
